@@ -21,7 +21,8 @@ ObjLists == {<<o>> : o \in Objs} \cup (IF Big THEN {<<a, b>> : a \in {x \in Objs
                                                ELSE {<<a, b>> : a \in {x \in Objs : x.path = "o1" /\ x.mtime = "m1"}, b \in {x \in Objs : x.path = "o3" /\ x.etag = "e3" /\ x.data = "d2"}})
 ObjCases == {[k |-> "objs", srv |-> s, via |-> v, objs |-> l] : s \in Srvs, v \in {"get", "multiget", "query"}, l \in ObjLists}
 \* multiget: every requested href answered once, in order, with the object or the backend's own status
-Outs == {"ok", "404", "403", "500"}
+\* "403w", "404w": the status is carried by a wrapped error (a layered backend)
+Outs == {"ok", "404", "403", "500", "403w", "404w"}
 MgCases == {[k |-> "mgst", srv |-> s, items |-> it] : s \in Srvs,
               it \in UNION {[1..n -> [href : {"o1", "o2", "o3"}, out : Outs]] : n \in 1..(IF Big THEN 3 ELSE 2)}}
 MgValid(c) == \A i, j \in 1..Len(c.items) : i # j => c.items[i].href # c.items[j].href
